@@ -12,6 +12,7 @@ import UberjobModel.Model.Notify
 import UberjobModel.Model.Queues
 import UberjobModel.Model.ProgressDrv
 import UberjobModel.Model.PhysDrv
+import UberjobModel.Model.ExecDrv
 /-!
   Line-protocol driver for the executable models (one request per line, one reply per line).
   Used by the Python harness for the correspondence checks (T2/T3).
@@ -124,6 +125,7 @@ def step (c : Ctx) (line : String) : Ctx × String :=
   | "tb" :: _ | "retry" :: _ => (c, Uberjob.Small.drv line)
   | "progress" :: _ => (c, Uberjob.Progress.drv line)
   | "phys" :: _ => (c, Uberjob.Phys.drv line)
+  | "exec" :: _ => (c, Uberjob.Exec.drv line)
   | "notifs" :: _ => (c, Notify.drv line)
   | "rq" :: _ => (c, Queues.drv line)
   | "cplan" :: _ => let (d, r) := Cache.drv c.cache line; ({ c with cache := d }, r)
